@@ -176,6 +176,8 @@ PROPS["C03"] = {
         Leg("lengths", "c03", "^TestLengths$", engine="enumerate", rapid=False, shards=(1, 1), tests=["lengths"]),
         Leg("stream", "c03", "^TestStream$", checks=(8000, 150000), shards=(2, 16), tests=["stream"]),
         Leg("parallel", "c03", "^TestParallel$", engine="sched", checks=(500, 10000), shards=(2, 16), tests=["parallel"], replay_attempts=5),
+        Leg("parallel-race", "c03", "^TestParallel$", engine="sched", race=True, checks=(100, 2000), shards=(2, 8), tests=["parallel"], replay_attempts=5),
+        Leg("first-use-race", "c03", "^TestParallel$", engine="sched", race=True, checks=(2, 2), shards=(12, 64), env={"VERIF_FIRST_USE": "1"}, tests=["parallel"], replay_attempts=5),
         Leg("interleaved", "c03", "^TestInterleaved$", checks=(2000, 40000), shards=(2, 16), tests=["interleaved"]),
         Leg("slow-consumer", "c03", "^TestSlowConsumer$", engine="sched", checks=(1, 3), shards=(3, 6), tests=["slow-consumer"]),
     ],
@@ -196,6 +198,8 @@ PROPS["C12"] = {
         Leg("single-bit", "c12", "^TestSingleBit$", engine="enumerate", rapid=False, shards=(1, 1), tests=["single-bit"]),
         Leg("fault", "c12", "^TestFault$", checks=(8000, 120000), shards=(2, 16), tests=["fault"]),
         Leg("parallel", "c12", "^TestParallel$", engine="sched", checks=(500, 10000), shards=(2, 16), tests=["parallel"], replay_attempts=5),
+        Leg("parallel-race", "c12", "^TestParallel$", engine="sched", race=True, checks=(100, 2000), shards=(2, 8), tests=["parallel"], replay_attempts=5),
+        Leg("first-use-race", "c12", "^TestParallel$", engine="sched", race=True, checks=(2, 2), shards=(12, 64), env={"VERIF_FIRST_USE": "1"}, tests=["parallel"], replay_attempts=5),
     ],
 }
 
